@@ -37,8 +37,11 @@ enum {
 
 static size_t s_advance_and_clamp_index(size_t current_index, int amount, size_t maximum) {
     size_t next_index = current_index + amount;
-    if (next_index > maximum) {
-        next_index = maximum;
+    if (next_index >= maximum) {
+        /* (v)snprintf() truncated its output. The last byte it was allowed to use, at maximum - 1, holds its null
+         * terminator: continue from there, so the terminator is overwritten instead of ending up inside the line and
+         * the room reserved for the final newline (and its terminator) is really left over. */
+        next_index = maximum > 0 ? maximum - 1 : 0;
     }
 
     return next_index;
